@@ -1,4 +1,398 @@
-import ScryerModel.Proofs.Format
-/-! C36 — format/2 directives produce the documented text (theorems; under construction). -/
+import ScryerModel.Proofs.FormatArgs
+/-!
+# C36 — format/2 directives produce the documented text
+
+`Scryer.Format` (Model/Format.lean) is a transcription of `format_//2` of `src/lib/format.pl`:
+`tokens` (directive syntax), `cells` (phase 1: argument consumption, format-string errors),
+`renderCells` (phase 2: goals, glue, characters). The theorems below are about the REPAIRED
+transcription (`Cfg.pinned = false`); the `pinned_*` theorems show that the pinned library
+(`Cfg.pinned = true`, findings C36-1/2/3) does not satisfy them.
+
+Specification side (Proofs/Format.lean): `horner r cs` is the positional value of a digit string,
+`digitVal` the value of one digit character, `isDec c` = "c is a decimal digit".
+-/
 namespace Scryer.Format
+open Scryer
+
+/-- reads an optionally signed decimal string. -/
+def readInt : List Char → Int
+  | '-' :: cs => -(horner 10 cs : Int)
+  | cs => (horner 10 cs : Int)
+
+/-! ## `~d`, `~Nd` -/
+
+/-- `~d` (N = 0 or omitted) prints the decimal expansion of any integer: a `-` for negative
+numbers followed by decimal digits whose positional value is `|i|`; reading it back gives `i`. -/
+theorem C36_d_decimal (i : Int) :
+    fmtD false 0 i = (if i < 0 then ['-'] else []) ++ natChars i.natAbs ∧
+    horner 10 (natChars i.natAbs) = i.natAbs ∧
+    (∀ c ∈ natChars i.natAbs, isDec c) ∧
+    readInt (fmtD false 0 i) = i := by
+  have hdec : ∀ c ∈ natChars i.natAbs, isDec c := fun c hc => (natChars_digits _ c hc).2.2.2
+  have h1 : fmtD false 0 i = (if i < 0 then ['-'] else []) ++ natChars i.natAbs := by
+    rw [fmtD_sign]; simp [insertPoint]
+  refine ⟨h1, horner_natChars _, hdec, ?_⟩
+  rw [h1]
+  by_cases hi : i < 0
+  · simp only [hi, ↓reduceIte, List.singleton_append, readInt, horner_natChars]; omega
+  · simp only [hi, ↓reduceIte, List.nil_append]
+    have hne := natChars_ne_nil i.natAbs
+    cases hc : natChars i.natAbs with
+    | nil => exact absurd hc hne
+    | cons c cs =>
+      have hm : c ≠ '-' := (natChars_digits i.natAbs c (by simp [hc])).1
+      have : readInt (c :: cs) = (horner 10 (c :: cs) : Int) := by
+        unfold readInt
+        split
+        · rename_i h; exact absurd (List.cons.inj h).1 hm
+        · rfl
+      rw [this, ← hc, horner_natChars]; omega
+
+/-- `~Nd` with N > 0, for every integer: sign, then the decimal expansion of `|i| / 10^N`, then a
+point, then exactly N decimal digits whose value is `|i| mod 10^N` (zero padded). -/
+theorem C36_Nd_point (n : Nat) (hn : 0 < n) (i : Int) :
+    ∃ fp, fmtD false n i =
+        (if i < 0 then ['-'] else []) ++ natChars (i.natAbs / 10 ^ n) ++ '.' :: fp ∧
+      fp.length = n ∧ horner 10 fp = i.natAbs % 10 ^ n ∧ ∀ c ∈ fp, isDec c := by
+  obtain ⟨frac, h1, h2⟩ := insertPoint_spec n i.natAbs
+  rcases h2 with ⟨h0, _⟩ | ⟨_, fp, rfl, hl, hv, hd⟩
+  · omega
+  · exact ⟨fp, by rw [fmtD_sign, h1, List.append_assoc], hl, hv, hd⟩
+
+/-- removing the point from `~Nd` gives back the digits of the number: the value of integer part
+and fraction digits together is `|i|`. -/
+theorem C36_Nd_digits (n : Nat) (hn : 0 < n) (i : Int) :
+    ∃ fp, fmtD false n i =
+        (if i < 0 then ['-'] else []) ++ natChars (i.natAbs / 10 ^ n) ++ '.' :: fp ∧
+      horner 10 (natChars (i.natAbs / 10 ^ n) ++ fp) = i.natAbs := by
+  obtain ⟨fp, h, hl, hv, _⟩ := C36_Nd_point n hn i
+  refine ⟨fp, h, ?_⟩
+  rw [horner_append, horner_natChars, hl, hv]
+  exact Nat.div_add_mod' _ _
+
+/-! ## `~ND`, `~NU` -/
+
+/-- `~ND` / `~NU` (separator `,` / `_`): deleting the separators gives exactly the text of `~Nd`. -/
+theorem C36_ND_ungroup (sep : Char) (hsep : sep = ',' ∨ sep = '_') (n : Nat) (i : Int) :
+    (fmtSep false sep n i).filter (· != sep) = fmtD false n i := by
+  have hs1 : ∀ c, isDec c → c ≠ sep := by
+    intro c hc e
+    subst e
+    rcases hsep with rfl | rfl
+    · exact (isDigit_ne hc).2.2.1 rfl
+    · exact (isDigit_ne hc).2.2.2 rfl
+  have hm : ('-' != sep) = true := by rcases hsep with rfl | rfl <;> decide
+  have hd : ('.' != sep) = true := by rcases hsep with rfl | rfl <;> decide
+  obtain ⟨frac, h1, h2⟩ := sepBody_insertPoint sep n i.natAbs
+  obtain ⟨frac', h1', h3⟩ := insertPoint_spec n i.natAbs
+  have hf : frac' = frac := List.append_cancel_left (h1'.symm.trans h1)
+  subst hf
+  have hnot : sep ∉ (natChars (i.natAbs / 10 ^ n)).reverse := by
+    intro hmem
+    exact hs1 sep (natChars_digits _ sep (List.mem_reverse.mp hmem)).2.2.2 rfl
+  have hfrac : frac'.filter (· != sep) = frac' := by
+    rcases h3 with ⟨_, rfl⟩ | ⟨_, fp, rfl, _, _, hdec⟩
+    · rfl
+    · rw [List.filter_cons, hd]
+      simp only [↓reduceIte]
+      rw [filter_ne_self (fun hmem => hs1 sep (hdec sep hmem) rfl)]
+  have hbody : (sepBody sep (insertPoint n (natChars i.natAbs))).filter (· != sep) =
+      insertPoint n (natChars i.natAbs) := by
+    rw [h2, List.filter_append, List.filter_reverse, groups3_filter sep _ hnot, List.reverse_reverse,
+      hfrac, ← h1]
+  rw [fmtD_sign]
+  simp only [fmtSep, Bool.false_eq_true, ↓reduceIte]
+  split
+  · rw [List.filter_cons, hm]; simp only [↓reduceIte, List.singleton_append]; rw [hbody]
+  · rw [hbody]; rfl
+
+/-- `~ND` / `~NU`: sign, the GROUPED integer part, then the unchanged fraction of `~Nd`; in the
+grouped integer part, counted from its right end, the separators stand exactly at the positions
+3, 7, 11, … (groups of exactly three digits) and it does not begin with a separator. -/
+theorem C36_ND_groups_of_three (sep : Char) (hsep : sep = ',' ∨ sep = '_') (n : Nat) (i : Int) :
+    ∃ grouped frac,
+      fmtSep false sep n i = (if i < 0 then ['-'] else []) ++ grouped ++ frac ∧
+      fmtD false n i = (if i < 0 then ['-'] else []) ++ natChars (i.natAbs / 10 ^ n) ++ frac ∧
+      (∀ p (hp : p < grouped.reverse.length), (grouped.reverse[p] = sep ↔ p % 4 = 3)) ∧
+      grouped.length % 4 ≠ 0 := by
+  obtain ⟨frac, h1, h2⟩ := sepBody_insertPoint sep n i.natAbs
+  have hnot : sep ∉ (natChars (i.natAbs / 10 ^ n)).reverse := by
+    intro hmem
+    have hd := (natChars_digits _ sep (List.mem_reverse.mp hmem)).2.2.2
+    rcases hsep with rfl | rfl
+    · exact (isDigit_ne hd).2.2.1 rfl
+    · exact (isDigit_ne hd).2.2.2 rfl
+  obtain ⟨g1, g2⟩ := groups3_sep_positions sep _ hnot
+  refine ⟨(groups3 sep (natChars (i.natAbs / 10 ^ n)).reverse).reverse, frac, ?_, ?_, ?_, ?_⟩
+  · simp only [fmtSep, Bool.false_eq_true, ↓reduceIte]
+    rw [h2]
+    split <;> simp
+  · rw [fmtD_sign, h1, List.append_assoc]
+  · intro p hp
+    simp only [List.reverse_reverse] at hp ⊢
+    exact g1 p hp
+  · rw [List.length_reverse]
+    exact g2 (by simp [natChars_ne_nil])
+
+/-! ## `~Nr`, `~NR` -/
+
+/-- `~Nr` for 2 ≤ N ≤ 36 and any integer: a `-` for negative numbers, then a non-empty string of
+digit characters (`digitChar`: `0-9`, then `a-z` resp. `A-Z`) below the radix whose positional (Horner) value in radix N is `|i|`, without a leading zero
+unless the number is 0 — i.e. THE representation of `i` in radix N. -/
+theorem C36_radix_value (upper : Bool) (r : Nat) (h2 : 2 ≤ r) (h36 : r ≤ 36) (i : Int) :
+    ∃ ds : List Char, radixChars upper r i = (if i < 0 then ['-'] else []) ++ ds ∧
+      horner r ds = i.natAbs ∧ ds ≠ [] ∧ (∀ c ∈ ds, ∃ d, d < r ∧ c = digitChar upper d) ∧
+      (i ≠ 0 → ds.head? ≠ some '0') :=
+  radixChars_spec upper h2 h36 i
+
+/-- `~NR` is `~Nr` with the letters in upper case. -/
+theorem C36_radix_upper (r : Nat) (h2 : 2 ≤ r) (h36 : r ≤ 36) (i : Int) :
+    radixChars true r i = (radixChars false r i).map Char.toUpper :=
+  radixChars_upper h2 h36 i
+
+/-- a radix outside 2..36 is an error (`domain_error(format_string, "~Nr")`), never output. -/
+theorem C36_radix_out_of_range (cfg : Cfg) (prim : FPrim) (upper : Bool) (n : Int) (t : Term)
+    (h : n < 2 ∨ n > 36) : ∀ cs, runGoal cfg prim (.radix upper n t) ≠ .ok cs := by
+  intro cs
+  simp only [runGoal]
+  cases evalInt t with
+  | error e => simp [bind, Except.bind]
+  | ok i => simp [bind, Except.bind, h]
+
+/-! ## column stops -/
+
+/-- a cell that ends at a column stop and has at least one fill point: its width is exactly
+`max (To - From) (width of its text)` — the stop is reached, longer text is not cut. -/
+theorem C36_column_width (from_ to_ : Int) (segs : List Seg) (hp : countPads segs ≠ 0) :
+    ((renderCell from_ to_ segs).length : Int) = max (to_ - from_) (textWidth segs) :=
+  renderCell_length from_ to_ segs hp
+
+/-- the padding `To - From - width` (when positive) is distributed over the k fill points as the
+library documents it: `space / k` each, the LAST one takes the remainder as well; the output is
+the elements in order with each fill point replaced by that many fill characters (`fill`). -/
+theorem C36_column_padding_distribution (from_ to_ : Int) (segs : List Seg)
+    (hp : countPads segs ≠ 0) (hs : 0 < to_ - from_ - (textWidth segs : Int)) :
+    renderCell from_ to_ segs =
+      fill segs (List.replicate (countPads segs - 1) ((to_ - from_ - textWidth segs).toNat / countPads segs) ++
+        [(to_ - from_ - textWidth segs).toNat / countPads segs +
+         (to_ - from_ - textWidth segs).toNat % countPads segs]) := by
+  rw [renderCell, glueSizes_shape hp hs]
+
+/-- text is never dropped or reordered: the text of the cell is a subsequence of the output and
+everything else is padding (`output length = text length + padding`). -/
+theorem C36_column_text_preserved (from_ to_ : Int) (segs : List Seg) :
+    (allText segs).Sublist (renderCell from_ to_ segs) ∧
+    (renderCell from_ to_ segs).length =
+      (allText segs).length + (glueSizes (countPads segs) (to_ - from_ - (textWidth segs : Int))).sum := by
+  refine ⟨fill_sublist _ _, ?_⟩
+  rw [renderCell, fill_length _ _ (glueSizes_length _ _), allText_length]
+
+/-- a cell without fill point is printed as it is, whatever the column stop says. -/
+theorem C36_column_no_fill_point (from_ to_ : Int) (segs : List Seg) (hp : countPads segs = 0) :
+    renderCell from_ to_ segs = allText segs :=
+  renderCell_no_pads from_ to_ segs hp
+
+/-! ## argument consumption, errors -/
+
+/-- too many arguments: when `args` is exactly what the format string demands, a non-empty
+surplus raises `domain_error(empty_list, Surplus)` in phase 1 — no output. -/
+theorem C36_too_many_arguments (cfg : Cfg) (prim : FPrim) (fs : List Char) (args extra : List Arg)
+    (out : List Char) (h : formatChars cfg prim fs args = .ok out) (hx : extra ≠ []) :
+    formatChars cfg prim fs (args ++ extra) =
+      .error (.dom "empty_list" (Term.ofList (extra.map (·.t)))) := by
+  unfold formatChars at h ⊢
+  cases hc : cells (tokens fs) args [] with
+  | error e => simp [hc] at h
+  | ok cs => rw [cells_extra extra hx _ _ _ _ hc]
+
+/-- too few arguments: when `pre ++ x :: rest` is accepted, `pre` alone raises
+`domain_error(non_empty_list, [])` or `domain_error(format_string, Directive…)` (the latter when
+a `*` took the last argument) in phase 1 — no output. -/
+theorem C36_too_few_arguments (cfg : Cfg) (prim : FPrim) (fs : List Char) (pre : List Arg)
+    (x : Arg) (rest : List Arg) (out : List Char)
+    (h : formatChars cfg prim fs (pre ++ x :: rest) = .ok out) :
+    ∃ e, formatChars cfg prim fs pre = .error e ∧
+      (e = .dom "non_empty_list" Term.nil ∨ ∃ s, e = .dom "format_string" s) := by
+  unfold formatChars at h ⊢
+  cases hc : cells (tokens fs) (pre ++ x :: rest) [] with
+  | error e => simp [hc] at h
+  | ok cs =>
+    obtain ⟨e, he, hk⟩ := cells_prefix x rest _ _ _ _ hc
+    exact ⟨e, by rw [he], hk⟩
+
+/-- an unknown directive (a `~` that no clause of the library accepts) is an error for every
+argument list. -/
+theorem C36_unknown_directive_error (cfg : Cfg) (prim : FPrim) (fs : List Char) (args : List Arg)
+    (h : ∃ src, (Tok.bad, src) ∈ tokens fs) : ∃ e, formatChars cfg prim fs args = .error e := by
+  obtain ⟨e, he⟩ := cells_bad _ h args []
+  exact ⟨e, by simp [formatChars, he]⟩
+
+/-- no partial output: if `format_//2` describes a string at all, every goal of every directive
+has succeeded (an ill-typed argument anywhere makes the whole call an error). -/
+theorem C36_ill_typed_no_output (prim : FPrim) (fs : List Char) (args : List Arg) (out : List Char)
+    (h : formatChars {} prim fs args = .ok out) :
+    ∃ cs, cells (tokens fs) args [] = .ok cs ∧
+      ∀ g ∈ cellGoals cs, ∃ t, runGoal {} prim g = .ok t := by
+  unfold formatChars at h
+  cases hc : cells (tokens fs) args [] with
+  | error e => simp [hc] at h
+  | ok cs =>
+    rw [hc] at h
+    exact ⟨cs, rfl, renderCells_ok prim cs 0 out h⟩
+
+/-- `~d ~D ~U ~L ~r ~R` accept integers only: a float, a rational, an atom or an unbound variable
+is an error. -/
+theorem C36_integer_directives_reject (cfg : Cfg) (prim : FPrim) (n : Int) (t : Term)
+    (ht : (∃ b, t = .flt b) ∨ (∃ a d, t = .rat a d) ∨ (∃ a, t = .atom a) ∨ (∃ v, t = .var v)) :
+    ∀ cs, runGoal cfg prim (.d n t) ≠ .ok cs ∧ runGoal cfg prim (.sep ',' n t) ≠ .ok cs ∧
+      runGoal cfg prim (.l n t) ≠ .ok cs ∧ runGoal cfg prim (.radix false n t) ≠ .ok cs := by
+  intro cs
+  have he : ∃ e, evalInt t = .error e := by
+    rcases ht with ⟨b, rfl⟩ | ⟨a, d, rfl⟩ | ⟨a, rfl⟩ | ⟨v, rfl⟩ <;> exact ⟨_, rfl⟩
+  obtain ⟨e, he⟩ := he
+  refine ⟨?_, ?_, ?_, ?_⟩ <;> simp only [runGoal, he, bind, Except.bind] <;> (try split_ifs) <;> simp
+
+/-- `~a` accepts atoms only (a number is a type error, a variable an instantiation error); `~s`
+of an unbound variable is an instantiation error. -/
+theorem C36_a_s_reject (cfg : Cfg) (prim : FPrim) (v : Int) :
+    runGoal cfg prim (.a (.int v)) = .error (.type "atom" (.int v)) ∧
+    runGoal cfg prim (.a (.var "X")) = .error .inst ∧
+    runGoal cfg prim (.s (.var "X")) = .error .inst := by
+  refine ⟨rfl, rfl, ?_⟩
+  simp [runGoal, mustBeChars, isVar]
+
+/-! ## `~~`, `~n`, `~Nn`, `~i` -/
+
+/-- `~Nn` emits exactly N newlines, `~~` a tilde, `~i` skips its argument. -/
+theorem C36_newlines_tilde_ignore (cfg : Cfg) (prim : FPrim) (n : Nat) (s1 s2 s3 : List Char) (a : Arg) :
+    (cells [(.num (.lit n) 'n', s1)] [] [] = .ok [.cell .same [], .newlines n, .cell .same []]) ∧
+    renderCells cfg prim [.cell .same [], .newlines n, .cell .same []] 0 = .ok (List.replicate n '\n') ∧
+    (cells [(.tilde, s2), (.plain 'i', s3)] [a] [] = .ok [.cell .same [.chars ['~']]]) ∧
+    renderCells cfg prim [.cell .same [.chars ['~']]] 0 = .ok ['~'] := by
+  refine ⟨?_, ?_, ?_, ?_⟩
+  · have : ¬ ((n : Int) < 0) := by omega
+    simp [cells, step, takeNum, numClose, this]
+  · simp [renderCells, evalElems, renderCell, fill, glueSizes, countPads, textWidth, cellTo, bind, Except.bind]
+  · simp [cells, step, plainElem]
+  · simp [renderCells, evalElems, renderCell, fill, glueSizes, countPads, textWidth, cellTo, bind, Except.bind]
+
+/-! ## `~Nf` (shape, given the arithmetic) -/
+
+/-- `~Nf`, N ≥ 1: when the arithmetic delivers a rounded fraction `0 ≤ frr0 ≤ 10^N`, the text is
+the integer part (after the carry), a point and exactly N decimal digits whose value is the
+rounded fraction (0 after a carry). -/
+theorem C36_Nf_shape (n : Nat) (hn : 0 < n) (p : FParts) (h0 : 0 ≤ p.frr0) (h1 : p.frr0 ≤ 10 ^ n) :
+    ∃ ip fp, fmtF n p = some (ip ++ '.' :: fp) ∧ fp.length = n ∧
+      (horner 10 fp : Int) = (if p.frr0 = 10 ^ n then 0 else p.frr0) ∧
+      (ip = ['-', '0'] ∨ ip = intChars (if p.frr0 = 10 ^ n then p.i0 + p.sgn else p.i0)) := by
+  have hpow : (1 : Int) < 10 ^ n := by
+    have : (10 : Int) ^ 1 ≤ 10 ^ n := pow_le_pow_right₀ (by norm_num) hn
+    linarith
+  -- the number whose digits are printed after dropping the leading 1
+  set frr : Int := if p.frr0 ≥ 10 ^ n then p.frr0 else p.frr0 + 10 ^ n with hfrr
+  have hge : (10 : Int) ^ n ≤ frr := by rw [hfrr]; split <;> linarith
+  have hlt : frr < 2 * 10 ^ n := by rw [hfrr]; split <;> linarith
+  have hne1 : frr ≠ 1 := by linarith
+  obtain ⟨m, hm⟩ : ∃ m : Nat, frr = (m : Int) := ⟨frr.toNat, by omega⟩
+  have hm_ge : 10 ^ n ≤ m := by exact_mod_cast (hm ▸ hge)
+  have hm_lt : m < 2 * 10 ^ n := by exact_mod_cast (hm ▸ hlt)
+  have hchars : intChars frr = natChars m := by
+    rw [hm]; simp [intChars]
+  -- natChars m = '1' :: n digits of (m - 10^n)
+  have hlen : n < (natChars m).length := by
+    by_contra hcon
+    have := natChars_lt_pow m
+    have : 10 ^ (natChars m).length ≤ 10 ^ n := Nat.pow_le_pow_right (by omega) (by omega)
+    omega
+  obtain ⟨t1, t2, t3⟩ := natChars_take_drop (m := m) (k := n) hlen
+  have hq : m / 10 ^ n = 1 := by
+    apply Nat.div_eq_of_lt_le <;> omega
+  have hone : natChars 1 = ['1'] := by
+    simp [natChars, digitsLE_pos, digitsLE_zero, digitChar]
+  have hsplit0 : natChars m = '1' :: (natChars m).drop ((natChars m).length - n) := by
+    conv_lhs => rw [← List.take_append_drop ((natChars m).length - n) (natChars m), t1, hq, hone]
+    rfl
+  have hmod : m % 10 ^ n = m - 10 ^ n := by
+    rw [Nat.mod_eq_sub_mod hm_ge, Nat.mod_eq_of_lt (by omega)]
+  generalize hD : (natChars m).drop ((natChars m).length - n) = D at hsplit0 t2 t3
+  refine ⟨(if (if p.frr0 ≥ 10 ^ n then p.i0 + p.sgn else p.i0) = 0 ∧ p.neg = true ∧ frr > 10 ^ n
+      then ['-', '0'] else intChars (if p.frr0 ≥ 10 ^ n then p.i0 + p.sgn else p.i0)),
+    D, ?_, t2, ?_, ?_⟩
+  · unfold fmtF
+    simp only [← hfrr, hne1, ↓reduceIte, hchars, hsplit0]
+  · rw [t3, hmod]
+    have : ((m - 10 ^ n : Nat) : Int) = frr - 10 ^ n := by rw [hm]; push_cast [hm_ge]; ring
+    rw [this, hfrr]
+    by_cases he : p.frr0 = 10 ^ n
+    · simp [he]
+    · have : ¬ p.frr0 ≥ 10 ^ n := by omega
+      simp [he, this]
+  · by_cases hc : (if p.frr0 ≥ 10 ^ n then p.i0 + p.sgn else p.i0) = 0 ∧ p.neg = true ∧ frr > 10 ^ n
+    · left; simp only [hc, and_self, ↓reduceIte]
+    · right
+      simp only [hc, ↓reduceIte]
+      by_cases he : p.frr0 = 10 ^ n
+      · simp [he]
+      · have : ¬ p.frr0 ≥ 10 ^ n := by omega
+        simp [he, this]
+
+/-! ## the pinned library violates the statements above (findings C36-1, C36-2, C36-3) -/
+
+theorem natChars_small : natChars 5 = ['5'] ∧ natChars 123 = ['1', '2', '3'] ∧
+    natChars 123456 = ['1', '2', '3', '4', '5', '6'] := by
+  refine ⟨?_, ?_, ?_⟩ <;> simp [natChars, digitsLE_pos, digitsLE_zero, digitChar]
+
+/-- C36-1: pinned `~2d` of -5 is `0.-5` and `~3d` of -123 is `-.123`; repaired `-0.05`, `-0.123`. -/
+theorem C36_pinned_Nd_violates :
+    fmtD true 2 (-5) = ['0', '.', '-', '5'] ∧ fmtD false 2 (-5) = ['-', '0', '.', '0', '5'] ∧
+    fmtD true 3 (-123) = ['-', '.', '1', '2', '3'] ∧ fmtD false 3 (-123) = ['-', '0', '.', '1', '2', '3'] := by
+  obtain ⟨h5, h123, _⟩ := natChars_small
+  refine ⟨?_, ?_, ?_, ?_⟩ <;>
+    simp [fmtD, intChars, insertPoint, h5, h123, show (-5 : Int).natAbs = 5 from rfl,
+      show (-123 : Int).natAbs = 123 from rfl]
+
+/-- C36-2: pinned `~D` of -123456 is `-,123,456` (a group separator right after the sign: the
+"group" `-` is not a group of digits); repaired `-123,456`. -/
+theorem C36_pinned_ND_violates :
+    fmtSep true ',' 0 (-123456) = ['-', ',', '1', '2', '3', ',', '4', '5', '6'] ∧
+    fmtSep false ',' 0 (-123456) = ['-', '1', '2', '3', ',', '4', '5', '6'] := by
+  obtain ⟨_, _, h⟩ := natChars_small
+  refine ⟨?_, ?_⟩ <;>
+    simp [fmtSep, fmtD, intChars, insertPoint, sepBody, groups3, h,
+      show (-123456 : Int).natAbs = 123456 from rfl]
+
+/-- C36-3: pinned `~w~|` raises `uninstantiation_error(Text)`; repaired it prints the text. -/
+theorem C36_pinned_write_column_violates (prim : FPrim) (a : Arg) :
+    renderCells { pinned := true } prim [.cell .width [.goal (.w a)]] 0 =
+      .error (.uninst (Term.ofChars a.w)) ∧
+    renderCells {} prim [.cell .width [.goal (.w a)]] 0 = .ok a.w := by
+  constructor
+  · simp [renderCells, evalElems, runGoal, lastWrite, bind, Except.bind]
+  · simp [renderCells, evalElems, runGoal, renderCell, fill, glueSizes, countPads, textWidth, cellTo,
+      bind, Except.bind]
+
+/-! ## non-vacuity -/
+
+/-- a complete run of the model: `"~a~t~8|~2d"` with `[x, 1234]`. -/
+example : ∃ prim : FPrim,
+    formatChars {} prim ['~', 'a', '~', 't', '~', '8', '|', '~', 'i', '~', '~'] [⟨.atom "x", [], []⟩, ⟨.int 1, [], []⟩] =
+      .ok ['x', ' ', ' ', ' ', ' ', ' ', ' ', ' ', '~'] :=
+  ⟨fun _ _ => .error .unspec, by rfl⟩
+
+/-- an unknown directive is reached (`~e`): hypothesis of `C36_unknown_directive_error`. -/
+example : ∃ src, (Tok.bad, src) ∈ tokens ['a', '~', 'e'] := ⟨['~', 'e'], by decide⟩
+
+/-- the hypotheses of `C36_column_padding_distribution` are satisfiable (3 fill points, 7 spare
+columns: 2, 2, 3). -/
+example : renderCell 0 10 [.pad ' ', .txt ['a'], .pad ' ', .pad '.', .txt ['b', 'c']] =
+    [' ', ' ', 'a', ' ', ' ', '.', '.', '.', 'b', 'c'] := by decide
+
+/-- `C36_Nf_shape`: both the carry and the no-carry branch are reached. -/
+example : fmtF 2 ⟨2, 100, false, 1⟩ = some ['3', '.', '0', '0'] ∧
+    fmtF 2 ⟨0, 5, true, -1⟩ = some ['-', '0', '.', '0', '5'] := by
+  have h3 : natChars 3 = ['3'] := by simp [natChars, digitsLE_pos, digitsLE_zero, digitChar]
+  have h100 : natChars 100 = ['1', '0', '0'] := by simp [natChars, digitsLE_pos, digitsLE_zero, digitChar]
+  have h105 : natChars 105 = ['1', '0', '5'] := by simp [natChars, digitsLE_pos, digitsLE_zero, digitChar]
+  constructor <;> simp [fmtF, intChars, h3, h100, h105]
+
 end Scryer.Format
